@@ -85,9 +85,9 @@ def run(module: str, cfg: str | None = None, *, workers: int | str = "auto", env
     elif re.search(r"Temporal properties were violated", out):
         violated = "temporal"
     else:
-        m = re.search(r"Action property (\S+) is violated", out)
+        m = re.search(r"Action property .* is violated", out)
         if m:
-            violated = m.group(1)
+            violated = "action-property"
         elif re.search(r"The postcondition|Postcondition .* violated|postcondition", out) and \
                 re.search(r"Error:.*[Pp]ostcondition", out):
             violated = "postcondition"
